@@ -20,6 +20,7 @@ import ClipVerif.Model.OffsetGeom
 import ClipVerif.Model.Split
 import ClipVerif.Model.BuildPaths
 import ClipVerif.Model.IntersectList
+import ClipVerif.Model.Ring
 /-
 Correspondence side of the line protocol: `model <name> …` evaluates a hand model, `gen <fn> …`
 evaluates a generated function; both print the result in a canonical form that the harness
@@ -81,35 +82,61 @@ def model (name : String) (ts : Toks) : String :=
     match takePath rest with
     | some (p, []) => toString (Model.pointInPolygon (p64 ⟨px, py⟩) (toP64 p).toArray)
     | _ => "parse-error"
-  | "ixlist", topY :: n :: rest =>
-    -- n edges (bot, top: four integers each), then k node points as computed by the real code, in the
-    -- order the nodes were added
+  | "ixlist", topY :: botY :: n :: rest =>
+    -- n edges (bot, top: four integers each)
     let rec ixEdges : Nat → List Int → List (Point64 × Point64) → Option (List (Point64 × Point64) × List Int)
       | 0, r, acc => some (acc.reverse, r)
       | k+1, bx :: by_ :: tx :: ty :: r, acc => ixEdges k r ((pt bx by_, pt tx ty) :: acc)
       | _, _, _ => none
     match ixEdges n.toNat rest [] with
-    | some (es, k :: ptoks) =>
-      match takePath (k :: ptoks) with
-      | some (ps, []) =>
-        -- with fewer than two edges the real code returns before `adjustCurrXAndCopyToSEL` (curX stays as the probe set it: bot.X)
-        let xs := if es.length < 2 then es.map fun e => e.1.X.toInt else es.map fun e => (Model.Ix.topX e.1 e.2 (i64 topY)).toInt
-        let (sel, nodes) := Model.Ix.build xs
-        let showN := fun (l : List (Nat × Nat)) => " ".intercalate (l.map fun a => s!"{a.1}-{a.2}")
-        let showL := fun (l : List Nat) => " ".intercalate (l.map toString)
-        let pts := toP64 ps
-        if pts.length != nodes.length then s!"x {xs} | n {showN nodes} | point-count-mismatch"
-        else
-          let sorted := (Model.Ix.sortNodes (nodes.zip pts)).map (·.1)
-          let canon := fun (l : List (Nat × Nat)) =>
-            if pts.eraseDups.length == pts.length then l else l.mergeSort fun a b => a.1 < b.1 || (a.1 == b.1 && a.2 ≤ b.2)
-          let tail := if nodes.isEmpty then s!"done  | ael {showL (List.range xs.length)}" else
-            match Model.Ix.process sorted (List.range xs.length) with
-            | none => "fault"
-            | some (done, ael) => s!"done {showN (canon done)} | ael {showL ael}"
-          s!"x {" ".intercalate (xs.map toString)} | n {showN nodes} | sel {if xs.length < 2 then "" else showL (sel.map (·.1))} | {tail}"
-      | _ => "parse-error"
+    | some (es, []) =>
+      -- with fewer than two edges the real code returns before `adjustCurrXAndCopyToSEL` (curX stays as the probe set it: bot.X)
+      let xs := if es.length < 2 then es.map fun e => e.1.X.toInt else es.map fun e => (Model.Ix.topX e.1 e.2 (i64 topY)).toInt
+      let (sel, nodes) := Model.Ix.build xs
+      let showN := fun (l : List (Nat × Nat)) => " ".intercalate (l.map fun a => s!"{a.1}-{a.2}")
+      let showL := fun (l : List Nat) => " ".intercalate (l.map toString)
+      let pts := nodes.map fun nd => Model.Ix.nodePoint es[nd.1]! es[nd.2]! (i64 topY) (i64 botY)
+      let sorted := (Model.Ix.sortNodes (nodes.zip pts)).map (·.1)
+      let canon := fun (l : List (Nat × Nat)) =>
+        if pts.eraseDups.length == pts.length then l else l.mergeSort fun a b => a.1 < b.1 || (a.1 == b.1 && a.2 ≤ b.2)
+      let tail := if nodes.isEmpty then s!"done  | ael {showL (List.range xs.length)}" else
+        match Model.Ix.process sorted (List.range xs.length) with
+        | none => "fault"
+        | some (done, ael) => s!"done {showN (canon done)} | ael {showL ael}"
+      s!"x {" ".intercalate (xs.map toString)} | n {showN nodes} | p {showPath pts} | sel {if xs.length < 2 then "" else showL (sel.map (·.1))} | {tail}"
     | _ => "parse-error"
+  | "ring", tree :: n :: rest =>
+    -- operations as integer groups: 0 e1 e2 x y isNew (addLocalMinPoly) | 1 e x y (addOutPt) | 2 e1 e2 x y
+    -- (addLocalMaxPoly) | 3 e1 e2 (swapOutrecs)
+    let rec ringOps : Nat → List Int → List Model.Ring.Op → Option (List Model.Ring.Op)
+      | _, [], acc => some acc.reverse
+      | 0, _, _ => none
+      | f+1, 0 :: e1 :: e2 :: x :: y :: isNew :: r, acc => ringOps f r (.min e1.toNat e2.toNat (pt x y) (isNew != 0) :: acc)
+      | f+1, 1 :: e :: x :: y :: r, acc => ringOps f r (.pt e.toNat (pt x y) :: acc)
+      | f+1, 2 :: e1 :: e2 :: x :: y :: r, acc => ringOps f r (.max e1.toNat e2.toNat (pt x y) :: acc)
+      | f+1, 3 :: e1 :: e2 :: r, acc => ringOps f r (.swap e1.toNat e2.toNat :: acc)
+      | _, _, _ => none
+    match ringOps rest.length rest [] with
+    | none => "parse-error"
+    | some ops =>
+      let rec go : Nat → List Model.Ring.Op → Model.Ring.St → String
+        | _, [], s =>
+          let o := fun (x : Option Nat) => match x with | some v => toString v | none => "-"
+          let es := " ".intercalate (s.edgeRec.map o)
+          let rs := " | ".intercalate (s.recs.map fun rc => s!"f={o rc.front} b={o rc.back} o={o rc.owner} p={showPath rc.pts}")
+          s!"ok={b s.succeeded} | e {es} | {rs}"
+        | k, op :: t, s =>
+          match Model.Ring.step (tree != 0) s op with
+          | none => s!"fault {k}"
+          | some s' =>
+            -- an owner chain that does not end within the table: the real `setOwner` would loop forever
+            let rec ends : Nat → Option Nat → Bool
+              | _, none => true
+              | 0, some _ => false
+              | f+1, some r => ends f (s'.getRec r).owner
+            if (List.range s'.recs.length).all fun r => ends (s'.recs.length + 1) (some r) then go (k+1) t s'
+            else s!"cycle {k}"
+      go 0 ops { edgeRec := List.replicate n.toNat none }
   | "aelins", n :: rest =>
     -- n resident edges then the newcomer, 13 integers each (the probe sends pairwise distinct edges)
     let rec edges : Nat → List Int → List Model.AelEdge → Option (List Model.AelEdge)
